@@ -482,6 +482,9 @@ func (f *frame) callByContract(site siteT, ct *Contract, key string, sig *types.
 		post.vars[l.Name] = post.eval(l.E)
 	}
 	for _, en := range ct.Ensures {
+		if strings.Contains(en.Text, "local(") {
+			continue // clauses over the callee's locals are not visible to callers
+		}
 		g := f.evalClause(post, en)
 		c.assume(implies(f.guard, g))
 		f.noteDynTypes(en.E, post, site, res)
